@@ -101,7 +101,7 @@ def _prune(parent, keep):
         shutil.rmtree(d, ignore_errors=True)
 
 
-def build(fam, archset="x86", extra_flags=(), main="main.cpp", with_scalar=True, compiler="g++", extra_srcs=()):
+def build(fam, archset="x86", extra_flags=(), main="main.cpp", with_scalar=True, compiler="g++", extra_srcs=(), link_flags=()):
     """Build harness binary for one family. archset: 'x86' (20 native architectures [+ scalar]) or 'emu'
     (emulated<128/256>, own binary because XSIMD_WITH_EMULATED changes generic kernels of the others)."""
     flags = BASE_FLAGS + list(extra_flags)
@@ -111,7 +111,7 @@ def build(fam, archset="x86", extra_flags=(), main="main.cpp", with_scalar=True,
     hh = hashlib.sha256()
     hh.update(repo_hash().encode())
     hh.update(_hash_tree(HARNESS, (".hpp", ".cpp", ".inc")).encode())
-    hh.update(" ".join(flags + [compiler, fam, archset, str(with_scalar)] + list(extra_srcs) + [f for a in archs for f in a[3]]).encode())
+    hh.update(" ".join(flags + [compiler, fam, archset, str(with_scalar)] + list(extra_srcs) + list(link_flags) + [f for a in archs for f in a[3]]).encode())
     key = hh.hexdigest()[:16]
     parent = os.path.join(BUILD, "h", "%s_%s" % (slug(fam), archset))
     out = os.path.join(parent, key)
@@ -149,7 +149,7 @@ def build(fam, archset="x86", extra_flags=(), main="main.cpp", with_scalar=True,
     if errs:
         shutil.rmtree(out, ignore_errors=True)
         raise InfraError("harness build failed (%s): %s\n%s" % (fam, errs[0][0], errs[0][1]))
-    r = sh([compiler] + [j[0] for j in jobs] + ["-o", exe + ".tmp", "-lpthread"])
+    r = sh([compiler] + [j[0] for j in jobs] + list(link_flags) + ["-o", exe + ".tmp", "-lpthread"])
     if r.returncode != 0:
         shutil.rmtree(out, ignore_errors=True)
         raise InfraError("harness link failed: " + r.stdout[-3000:])
